@@ -126,12 +126,33 @@ Fixpoint remove_key (k : url) (l : list (url * N)) : list (url * N) :=
   | (k', c) :: r => if beq k k' then remove_key k r else (k', c) :: remove_key k r
   end.
 
-(* newConnection + Set *)
-Definition p_dial (s : pstate) (u : url) : pstate * N :=
+(* newConnection as it was before /repo 8fc2c4a: dial, then Set (unconditional store) *)
+Definition p_dial_set (s : pstate) (u : url) : pstate * N :=
   let c := p_next s in
   (mkp ((u, c) :: remove_key u (p_pool s)) (c + 1) (p_shut s) (p_dials s ++ [(c, u)]), c).
 
-(* grpc_handler.go:250-260 Get *)
+(* grpc.DialContext: a new connection, known to its caller only *)
+Definition p_log_dial (s : pstate) (u : url) : pstate * N :=
+  let c := p_next s in
+  (mkp (p_pool s) (c + 1) (p_shut s) (p_dials s ++ [(c, u)]), c).
+
+(* setIfAbsent (since 8fc2c4a), one critical section under the write lock: if a different
+   live connection is pooled under the key, close the new one and return the pooled one;
+   otherwise store and return the new one *)
+Definition p_set_if_absent (s : pstate) (u : url) (c : N) : pstate * N :=
+  let store := (mkp ((u, c) :: remove_key u (p_pool s)) (p_next s) (p_shut s) (p_dials s), c) in
+  match assoc u (p_pool s) with
+  | Some cur => if negb (cur =? c) && negb (memN cur (p_shut s))
+                then (mkp (p_pool s) (p_next s) (c :: p_shut s) (p_dials s), cur)
+                else store
+  | None => store
+  end.
+
+(* newConnection today: dial, then setIfAbsent *)
+Definition p_dial (s : pstate) (u : url) : pstate * N :=
+  let (s1, c) := p_log_dial s u in p_set_if_absent s1 u c.
+
+(* grpc_handler.go Get: the pooled connection unless absent or in Shutdown, else newConnection *)
 Definition p_get (s : pstate) (u : url) : pstate * N :=
   match assoc u (p_pool s) with
   | Some c => if live s c then (s, c) else p_dial s u
@@ -264,9 +285,9 @@ Definition call_conn (noglob : bool) (s : state) (m : md) (path : str) (k : nat)
                end
   end.
 
-(* ---- two callers inside Get at the same time ----
-   Get is three atomic actions: read the map under the read lock; (on a miss) dial; store
-   under the write lock.  Dial and store are merged here (nothing observable in between). *)
+(* ---- callers inside Get at the same time ----
+   UNREPAIRED variant (before /repo 8fc2c4a): read the map under the read lock; on a miss dial
+   and Set under the write lock (dial and Set merged here: nothing observable in between). *)
 Inductive pc := AtRead | AtDial (hit : option N) | Done (c : N).
 Definition thread_step (s : pstate) (u : url) (p : pc) : pstate * pc :=
   match p with
@@ -274,7 +295,7 @@ Definition thread_step (s : pstate) (u : url) (p : pc) : pstate * pc :=
                           | Some c => if live s c then Some c else None
                           | None => None end))
   | AtDial (Some c) => (s, Done c)
-  | AtDial None => let (s', c) := p_dial s u in (s', Done c)
+  | AtDial None => let (s', c) := p_dial_set s u in (s', Done c)
   | Done c => (s, Done c)
   end.
 (* two threads, both calling Get u; a schedule names which thread moves next *)
@@ -284,6 +305,34 @@ Fixpoint run2 (s : pstate) (u : url) (a b : pc) (sched : list bool) : pstate * p
   | false :: r => let (s', a') := thread_step s u a in run2 s' u a' b r
   | true :: r => let (s', b') := thread_step s u b in run2 s' u a b' r
   end.
+
+(* The code today: Get is three atomic actions per caller -- the read-locked lookup, the dial
+   (no lock, the connection is known to the caller only), the check-and-set under the write
+   lock.  Any number of callers for one target; a schedule is the list of thread indices
+   that move (an index naming no thread or a finished thread changes nothing). *)
+Inductive gpc := GRead | GDial | GSet (c : N) | GDone (c : N).
+Definition gstep (s : pstate) (u : url) (p : gpc) : pstate * gpc :=
+  match p with
+  | GRead => (s, match assoc u (p_pool s) with
+                 | Some c => if live s c then GDone c else GDial
+                 | None => GDial
+                 end)
+  | GDial => let (s1, c) := p_log_dial s u in (s1, GSet c)
+  | GSet c => let (s2, r) := p_set_if_absent s u c in (s2, GDone r)
+  | GDone c => (s, GDone c)
+  end.
+Definition gstep_at (s : pstate) (u : url) (ths : list gpc) (i : nat) : pstate * list gpc :=
+  match nth_error ths i with
+  | None => (s, ths)
+  | Some p => let (s1, p1) := gstep s u p in (s1, firstn i ths ++ p1 :: skipn (S i) ths)
+  end.
+Fixpoint grun (s : pstate) (u : url) (ths : list gpc) (sched : list nat) : pstate * list gpc :=
+  match sched with
+  | [] => (s, ths)
+  | i :: r => let (s1, ths1) := gstep_at s u ths i in grun s1 u ths1 r
+  end.
+Definition g_done (p : gpc) : bool := match p with GDone _ => true | _ => false end.
+
 (* a connection nobody can reach any more: dialled, live, not in the pool *)
 Definition orphan (s : pstate) (c : N) : bool :=
   existsb (fun d => fst d =? c) (p_dials s) && live s c && negb (existsb (fun kc => snd kc =? c) (p_pool s)).
